@@ -804,10 +804,19 @@ def r18_10(ctx, counts) -> RuleResult:
                 and e.value.id in (p1, p2) and stmt_text(e.slice) == '-1':
             return e.value.id
         return None
-    ladder = [st for st in f.node.body if isinstance(st, ast.If) and any(
-        last_index(y) for y in ast.walk(st.test))]
+    ladder = [st for st in f.node.body if isinstance(st, (ast.If, ast.Assign)) and any(
+        last_index(y) for y in ast.walk(st))]
     if not ladder:
-        raise AnalysisError('is_sequence_type_restriction: occurrence ladder not located')
+        raise AnalysisError('is_sequence_type_restriction: occurrence handling not located')
+    # the whole body after the normalisation is interpreted; it stops at the first expression
+    # outside the string fragment (the look-ups in the type tables), which is "falls through"
+    whole = [st for st in f.node.body
+             if not (isinstance(st, ast.Expr) and isinstance(st.value, ast.Constant))
+             and not (isinstance(st, ast.Assign) and any(isinstance(y, ast.Call)
+                                                         for y in ast.walk(st.value)))]
+
+    class _Stop(Exception):
+        pass
 
     class _Ret(Exception):
         def __init__(self, v):
@@ -831,9 +840,12 @@ def r18_10(ctx, counts) -> RuleResult:
                 return v[0]
         if isinstance(e, ast.UnaryOp) and isinstance(e.op, ast.Not):
             return not ev(e.operand, env)
+        if isinstance(e, ast.IfExp):
+            return ev(e.body, env) if ev(e.test, env) else ev(e.orelse, env)
         if isinstance(e, ast.BoolOp):
-            vals = [ev(v, env) for v in e.values]
-            return all(vals) if isinstance(e.op, ast.And) else any(vals)
+            if isinstance(e.op, ast.And):
+                return all(ev(v, env) for v in e.values)
+            return any(ev(v, env) for v in e.values)
         if isinstance(e, ast.Compare) and len(e.ops) == 1:
             a, b = ev(e.left, env), ev(e.comparators[0], env)
             op = e.ops[0]
@@ -851,7 +863,7 @@ def r18_10(ctx, counts) -> RuleResult:
         if isinstance(e, ast.Call) and isinstance(e.func, ast.Attribute) \
                 and e.func.attr == 'startswith' and len(e.args) == 1:
             return ev(e.func.value, env).startswith(ev(e.args[0], env))
-        raise AnalysisError(f'occurrence ladder: `{stmt_text(e)[:50]}` not interpreted')
+        raise _Stop(f'occurrence ladder: `{stmt_text(e)[:50]}` not interpreted')
 
     def run(stmts, env):
         for st in stmts:
@@ -874,10 +886,12 @@ def r18_10(ctx, counts) -> RuleResult:
             n += 1
             env = {p1: 'xs:T' + o1, p2: 'xs:T' + o2}
             try:
-                run(ladder, env)
+                run(whole, env)
                 out = None
             except _Ret as r:
                 out = r.v
+            except _Stop:
+                out = None
             accepted = out is True or (out is None and env[p1] == env[p2])
             sound = (not accepted) or o2 in allowed[o1]
             res.instances.append(f"T{o1 or '(one)'} :> T{o2 or '(one)'}: "
@@ -904,6 +918,8 @@ def r18_10(ctx, counts) -> RuleResult:
             out = None
         except _Ret as r:
             out = r.v
+        except _Stop as err:
+            raise AnalysisError(str(err))
         res.instances.append(f'{t1} :> empty-sequence(): {"accepted" if out is True else "rejected"}')
         if out is not True:
             res.ok()
@@ -913,6 +929,10 @@ def r18_10(ctx, counts) -> RuleResult:
                              f'() matches empty-sequence() and does not match {t1}, so `function() '
                              f'as empty-sequence() {{()}} instance of function() as {t1}` holds '
                              f'and the subtype relation is unsound for matching'))
+    n_acc = sum(1 for i_ in res.instances if ': accepted' in i_ and ':> T' in i_)
+    if n_acc < 4 or n_acc > 15:
+        raise AnalysisError(f'occurrence pairs accepted: {n_acc} of 16 (the interpretation of '
+                            f'is_sequence_type_restriction does not discriminate)')
     counts['occurrence_pairs'] = n
     counts['empty_sequence_rows'] = n_e
     return res
@@ -1037,7 +1057,33 @@ def r18_13(ctx, counts) -> RuleResult:
                       and y.func.attr in ('items', 'values', 'keys')
                       and stmt_text(y.func.value) == 'self'
                       for g in x.args[0].generators for y in ast.walk(g.iter))]
-        if not qs:
+        loops = [lp for lp in walk_local(m.node) if isinstance(lp, ast.For) and any(
+            isinstance(y, ast.Call) and isinstance(y.func, ast.Attribute)
+            and y.func.attr in ('items', 'values', 'keys') and stmt_text(y.func.value) == 'self'
+            for y in ast.walk(lp.iter))]
+        for lp in loops:
+            # the loop form of all(): a failed item test leaves with False, nothing accepts early
+            n += 1
+            rejects = [st for st in ast.walk(lp) if isinstance(st, ast.If)
+                       and isinstance(st.test, ast.UnaryOp) and isinstance(st.test.op, ast.Not)
+                       and any(isinstance(y, ast.Call)
+                               and dotted(y.func).split('.')[-1] == 'match_sequence_type'
+                               for y in ast.walk(st.test))
+                       and any(isinstance(r_, ast.Return) and isinstance(r_.value, ast.Constant)
+                               and r_.value.value is False for r_ in st.body)]
+            early = [r_ for r_ in ast.walk(lp) if isinstance(r_, ast.Return)
+                     and not (isinstance(r_.value, ast.Constant) and r_.value.value is False)]
+            ok = bool(rejects) and not early
+            res.instances.append(f'{m.key}: loop over the entries at L{lp.lineno} rejects on a '
+                                 f'failed item test and never accepts early: {ok}')
+            if ok:
+                res.ok()
+            else:
+                res.fail(finding('R18.13', m, lp, 'entries not quantified universally',
+                                 f'the loop over the entries of the {cname[5:].lower()} does not '
+                                 f'reject on every failed item test, or accepts before the last '
+                                 f'entry: one matching entry is enough'))
+        if not qs and not loops:
             raise AnalysisError(f'{m.key}: no quantifier over the entries located')
         for q in qs:
             n += 1
